@@ -245,7 +245,7 @@ def check(ctx):
     fe_all = pipe_exec.FRONTENDS
     forms = ["iso", "datetime", "timestamp"]
     max_orders = {"C05": 1, "C06": ctx.pick(6, 12), "C18": 2}[prop]
-    n_model = ctx.pick({"C05": 260, "C06": 300, "C18": 300}[prop], {"C05": 3000, "C06": 2500, "C18": 1500}[prop])
+    n_model = ctx.pick({"C05": 260, "C06": 300, "C18": 300}[prop], {"C05": 1500, "C06": 1500, "C18": 1000}[prop])
     cases = []
     for i in idx:
         if len(cases) >= n_model:
@@ -273,7 +273,7 @@ def check(ctx):
                 cases.append((legacy_tb, [{"win": [NA, NA], "entries": copy.deepcopy(pair)}]))
     import random as _r
     g = _r.Random(ctx.seed + 5)
-    for _ in range(ctx.pick(150, 2500)):
+    for _ in range(ctx.pick(150, 1200)):
         tb = rand_table(g, ctx.pick(8, 14))
         cases.append((tb, rand_config(g, tb, faults=(prop == "C18" or g.random() < 0.25))))
     for n, (tb, cfg) in enumerate(cases):
